@@ -27,6 +27,8 @@ class PC(object):
         self.solver = z3.Solver()
         self.solver.set('timeout', timeout_ms or QUERY_TIMEOUT_MS)
         self.maybe_infeasible = False   # a feasibility query came back unknown on this path
+        self._yes = {}      # id(expr) -> expr : facts already shown to be implied (monotone: stays valid when the pc grows)
+        self._no = {}       # id(expr) -> (len(facts), expr)
 
     def add(self, b):
         if b is True:
@@ -59,6 +61,19 @@ class PC(object):
             return self._check(*extra) == z3.unsat
         if z3.is_true(b):
             return True
+        if not extra:
+            k = b.get_id()
+            if k in self._yes:
+                return True
+            hit = self._no.get(k)
+            if hit is not None and hit[0] == len(self.facts):
+                return False
+            r = self._check(z3.Not(b)) == z3.unsat
+            if r:
+                self._yes[k] = b
+            else:
+                self._no[k] = (len(self.facts), b)
+            return r
         return self._check(z3.Not(b), *extra) == z3.unsat
 
     def feasible(self, b=True, extra=()):
